@@ -442,6 +442,17 @@ def r_collision(c):
             "dedup-lookup-before-insert", m.loc(m.module_of(fd), fd),
             "a result is inserted without first consulting the table of "
             "already-cached equal results (sharing is no longer preserved)")
+    # the table of equal results is keyed by the result itself (==), not a digest
+    keys = [ast.unparse(nd.slice) for nd in ast.walk(fd)
+            if isinstance(nd, ast.Subscript)
+            and "_result_to_cached_result" in ast.unparse(nd.value)]
+    rparam = fd.args.args[2].arg if len(fd.args.args) > 2 else "result"
+    c.check(len(keys) >= 2 and all(k == rparam for k in keys), "R13-COLLISION",
+            "TransformMapperCache.add", "dedup-table-keyed-by-result",
+            m.loc(m.module_of(fd), fd),
+            f"the equal-results table is indexed by {sorted(set(keys))} instead of "
+            f"the result object {rparam!r}: unequal results sharing a digest would be "
+            "merged")
     # the value inserted is the de-duplicated one
     ok = False
     for n in ast.walk(fd):
